@@ -835,6 +835,11 @@ func (env *CEnv) call(n *Node) cval {
 			sort = map[string]string{"int": SInt, "bool": SBool, "string": SStr, "ref": SInt}[n.Kids[2].S]
 		}
 		return cval{V: App("val!"+m, sort, v)}
+	case "fmtstr":
+		// fmtstr(format, args): the text fmt.Sprintf(format, args...) as the executor models it
+		f := env.eval(n.Kids[0])
+		a := env.eval(n.Kids[1])
+		return cval{V: env.ex.sprintf(env.scratchState(), f.V, a.V)}
 	case "dyntype":
 		// dyntype(v): name of the dynamic type held by an interface value ("" if unknown)
 		v := env.eval(n.Kids[0])
@@ -967,7 +972,7 @@ func (env *CEnv) call(n *Node) cval {
 var specSigs = map[string]string{
 	"hash_ok": SBool, "sha512": SStr, "hash_of": SStr, "localize": SStr, "totp_ok": SBool,
 	"b64enc!std": SStr, "b64enc!url": SStr, "b64dec!std": SStr, "b64dec!url": SStr,
-	"json_ok": SBool, "time_format": SStr, "time_parse": SInt, "time_parse_ok": SBool, "fresh_error": SBool,
+	"json_ok": SBool, "json_str": SStr, "time_format": SStr, "time_parse": SInt, "time_parse_ok": SBool, "fresh_error": SBool,
 	"regex_match": SBool, "count_upper": SInt, "count_lower": SInt, "count_numeric": SInt, "count_symbols": SInt, "count_whitespace": SInt,
 	"str_lower": SStr, "filepath_base": SStr, "str_split": SArr(SInt, SStr), "str_split_len": SInt, "str_join": SStr, "itoa": SStr, "atoi": SInt,
 }
@@ -1209,6 +1214,10 @@ func isSecretSource(t *Term, forLog bool) bool {
 		}
 	case op == "totp_secret_of":
 		return forLog
+	case strings.HasPrefix(op, "body!"):
+		// the raw request body (io.ReadAll): it carries the submitted password,
+		// codes and tokens, whatever member they sit in
+		return forLog
 	case op == "url_string":
 		// the request URL carries the mailed token on GET routes (confirm,
 		// recover end, 2FA e-mail verification)
@@ -1274,6 +1283,36 @@ func secretsClean(env *CEnv) (bool, string) {
 					return false, fmt.Sprintf("remember token stored at %s contains %s", e.Pos, s)
 				}
 			}
+		}
+	}
+	// an error returned by a function under a C17 contract ends, through the handler that
+	// returns it, in the error handler's log line (errors are structured terms: err_new / err_wrap)
+	if !env.panicky && env.ret != nil {
+		rt := resultType(env.fn)
+		chk := func(v Value, t types.Type) string {
+			if t == nil || t.String() != "error" {
+				return ""
+			}
+			if iv, ok := v.(*IfaceV); ok {
+				v = iv.V
+			}
+			if tt, ok := v.(*Term); ok {
+				if s := ex.secretIn(tt, 0, true); s != nil {
+					return fmt.Sprintf("returned error (logged by the error handler) carries %s", s)
+				}
+			}
+			return ""
+		}
+		if tup, ok := rt.(*types.Tuple); ok {
+			if tv, ok := env.ret.(*TupleV); ok {
+				for i := 0; i < tup.Len() && i < len(tv.V); i++ {
+					if why := chk(tv.V[i], tup.At(i).Type()); why != "" {
+						return false, why
+					}
+				}
+			}
+		} else if why := chk(env.ret, rt); why != "" {
+			return false, why
 		}
 	}
 	return true, ""
